@@ -10,7 +10,7 @@
 #include <stdlib.h>
 #include <string.h>
 
-#define MAXW 64
+#define MAXW 1024
 static char *hc_line = NULL;
 static size_t hc_cap = 0;
 static char *W[MAXW];
